@@ -1,7 +1,9 @@
 GROUPS = [
  dict(name="nmt_setmode", enforce="CONmtSetMode", harness="nmt_fn.c", tus=["core/co_nmt.c"], defs=["VW_OP=0"], nondet_static=True,
       replace=["COTPdoInit", "CORPdoInit", "CONmtModeChange", "CONodeFatalError"], reach=["post", "pdoinit"],
-      props={"C09": "quick", "C01": "quick", "C20": "quick", "C10": dict(tier="quick", only=["assigns"])}, timeout=120),
+      props={"C09": "quick", "C01": "quick", "C20": "quick", "C10": dict(tier="quick", only=["assigns"]),
+             # C14: 'the configuration the node activates on entering OPERATIONAL': the PDOs are (re)activated on EVERY entry (seeded change C14_I2)
+             "C14": dict(tier="quick", only=["G_PDOINIT_N"])}, timeout=120),
  dict(name="nmt_check", enforce="CONmtCheck", harness="nmt_fn.c", tus=["core/co_nmt.c"], defs=["VW_OP=1"], nondet_static=True,
       replace=["CONmtSetMode", "CONmtReset", "CONmtResetRequest"], reach=["post", "stopped", "bootup", "notnmt"],
       props={"C09": "quick", "C01": "quick", "C10": dict(tier="quick", only=["assigns"])}, timeout=120),
